@@ -1,4 +1,5 @@
 SPECIFICATION TSpec
+CONSTANTS FixF2 = TRUE FixF3 = TRUE FixF14 = FALSE
 INVARIANT Done
 POSTCONDITION Complete
 CHECK_DEADLOCK FALSE
